@@ -53,8 +53,8 @@ def _hand_meta(g, sol):
     )
 
 
-def _serpentine(n: int, length: int):
-    """a corridor snaking through an n x n grid, solution = first `length` cells"""
+def _serpentine(n: int, length: int, start: int = 0):
+    """a corridor snaking through an n x n grid, solution = `length` cells from position `start` of the corridor"""
     order = []
     for i in range(n):
         cols = range(n) if i % 2 == 0 else range(n - 1, -1, -1)
@@ -62,7 +62,7 @@ def _serpentine(n: int, length: int):
     bits = [0] * (2 * n * n)
     for u, v in zip(order[:-1], order[1:]):
         bits[M.edge_bit(n, n, u, v)] = 1
-    return M.g_make(n, n, bits), [list(q) for q in order[:length]]
+    return M.g_make(n, n, bits), [list(q) for q in order[start : start + length]]
 
 
 def _keep_all(m, tag: str = "") -> bool:
@@ -92,7 +92,7 @@ def build_dataset(case: dict):
     items = []
     for it in case["items"]:
         if "serp" in it:
-            items.append(_serpentine(n, it["serp"]))
+            items.append(_serpentine(n, it["serp"], it.get("from", 0)))
         else:
             items.append((it["g"], it["sol"]))
     mode = case.get("meta", "none")
@@ -322,6 +322,23 @@ def _hand_dataset(draw, n_hi, long_ok=True, min_items=1):
 
 
 @st.composite
+def _beyond_128(draw):
+    """grids of more than 128 cells per side: coordinates no longer fit the one-byte storage"""
+    n = draw(st.sampled_from([130, 129, 150, 128, 200]))
+    items = []
+    for _ in range(draw(st.integers(1, 3))):
+        ln = draw(st.sampled_from([1, 2, 40, 300]))
+        row = draw(st.sampled_from([n - 1, 128, 127, n - 2, 0]))
+        row = min(row, n - 1)
+        items.append({"serp": ln, "from": max(0, min(n * n - ln, row * n + draw(st.integers(0, n - 1)) - ln // 2))})
+    case = {"src": "hand", "n": n, "items": items, "meta": draw(st.sampled_from(["none", "per-maze", "collected-only"])),
+            "fmt": draw(st.sampled_from(["minimal", "soln_cat", "full", "auto"])), "channel": draw(st.sampled_from(["memory", "memory", "file"]))}
+    if case["fmt"] == "auto":
+        case["threshold"] = draw(st.sampled_from([1, "len", None]))
+    return case
+
+
+@st.composite
 def _case(draw, n_hi, mazes_hi):
     case = draw(st.one_of(_gen_dataset(n_hi, mazes_hi), _hand_dataset(n_hi)))
     case["fmt"] = draw(st.sampled_from(["full", "minimal", "soln_cat", "auto", "auto"]))
@@ -376,6 +393,7 @@ def subs(tier: str):
     out = [
         Sub("datasets", check, "hypothesis", strategy=lambda: _case(6 if q else 8, 8 if q else 12), examples=50 if q else 4000),
         Sub("collections", check_collection, "hypothesis", strategy=_collection, examples=12 if q else 1000),
+        Sub("grids-beyond-128", check, "hypothesis", strategy=_beyond_128, examples=2 if q else 25),
         Sub("large", check, "hypothesis", strategy=_large, examples=2 if q else 40),
     ]
     return out
